@@ -123,6 +123,7 @@ type workload struct {
 	flushSecs uint32
 	nOps      int
 	knobClass string
+	warmup    bool // Close+Open right after creation, before the workload
 }
 
 var (
@@ -452,6 +453,10 @@ func genWorkload(c simkit.Chooser, maxOps int) *workload {
 	default:
 		wl.flushSecs = uint32(1 + c.Intn(20, "flush-secs"))
 		wl.knobClass += "/intShort"
+	}
+	wl.warmup = !c.Bool(300, "knob-no-warmup")
+	if !wl.warmup {
+		wl.knobClass += "/cold"
 	}
 	g.nilVals = c.Bool(150, "knob-nilvals")
 	g.overrun = c.Bool(250, "knob-overrun")
